@@ -1,6 +1,7 @@
 package p_isaacb
 
 import (
+	"bytes"
 	"context"
 	"errors"
 	"fmt"
@@ -179,9 +180,23 @@ type c11Env struct {
 	steps   atomic.Int64 // bumped whenever a lane issues a call (used only to pace gates)
 	mu      sync.Mutex
 	records []*c11SaveRecord
+	calls   []*c11CallRecord
 	writers int
+	// the queued phase: the next writer created for proposal holdFor pauses inside Manifest until gate is closed, so
+	// that its Process call keeps the processors' lock for as long as the harness wants
+	holdFor util.Hash
+	gate    chan struct{}
 	// drawn behaviour, consumed in creation order of writers (deterministic when single lane)
 	behaviours []c11WriterBehaviour
+}
+
+// c11CallRecord: one ProposalProcessors.Save call as its caller sees it.
+type c11CallRecord struct {
+	Step   string
+	Height int64 // height of the ACCEPT voteproof
+	Begin  int64
+	End    int64
+	OK     bool // returned a nil error: the caller is told the block of that height is saved
 }
 
 type c11WriterBehaviour struct {
@@ -198,6 +213,7 @@ type c11Writer struct {
 	id       int
 	proposal base.ProposalSignFact
 	beh      c11WriterBehaviour
+	hold     bool
 
 	mu           sync.Mutex
 	manifest     util.Hash
@@ -237,7 +253,94 @@ func (e *c11Env) newWriter(proposal base.ProposalSignFact, cancelCaller func()) 
 		beh = e.behaviours[id]
 	}
 
-	return &c11Writer{env: e, id: id, proposal: proposal, beh: beh, cancelCaller: cancelCaller}
+	hold := false
+	if e.holdFor != nil && e.holdFor.Equal(proposal.Fact().Hash()) {
+		hold = true
+		e.holdFor = nil
+	}
+
+	return &c11Writer{env: e, id: id, proposal: proposal, beh: beh, hold: hold, cancelCaller: cancelCaller}
+}
+
+func (e *c11Env) armHold(proposal util.Hash) {
+	e.mu.Lock()
+	e.holdFor = proposal
+	e.mu.Unlock()
+}
+
+// ---- goroutine introspection for the queued phase: no callback of the code under test runs between the entry of
+// Process/Save/Cancel and the acquisition of the processors' lock, so the only way to know that a call is queued on that
+// lock is to look at the state of its goroutine.
+
+var c11StackBuf = make([]byte, 64<<10)
+
+func c11GoID() string {
+	var b [64]byte
+
+	f := strings.Fields(string(b[:runtime.Stack(b[:], false)])) // "goroutine 123 [running]:"
+	if len(f) < 2 {
+		return ""
+	}
+
+	return f[1]
+}
+
+// c11ParkedOnProcessorsLock reports whether goroutine goid is parked in sync.(*RWMutex).Lock called from a
+// ProposalProcessors method.
+func c11ParkedOnProcessorsLock(goid string, buf *[]byte) bool {
+	if goid == "" {
+		return false
+	}
+
+	var raw []byte
+
+	for {
+		n := runtime.Stack(*buf, true)
+		if n < len(*buf) {
+			raw = (*buf)[:n]
+
+			break
+		}
+
+		if len(*buf) >= 64<<20 {
+			return false
+		}
+
+		*buf = make([]byte, 2*len(*buf))
+	}
+
+	head := "goroutine " + goid + " ["
+
+	i := 0
+	if !bytes.HasPrefix(raw, []byte(head)) {
+		if i = bytes.Index(raw, []byte("\n\n"+head)); i < 0 {
+			return false
+		}
+
+		i += 2
+	}
+
+	raw = raw[i:]
+	if j := bytes.Index(raw, []byte("\n\n")); j >= 0 {
+		raw = raw[:j]
+	}
+
+	block := string(raw)
+
+	state := block[len(head):]
+	if !strings.HasPrefix(state, "sync.Mutex.Lock") && !strings.HasPrefix(state, "sync.RWMutex.Lock") && !strings.HasPrefix(state, "semacquire") {
+		return false
+	}
+
+	k := strings.Index(block, "sync.(*RWMutex).Lock(")
+	if k < 0 {
+		return false
+	}
+
+	// the frame that called RWMutex.Lock: function line, file line, then the caller
+	rest := strings.SplitN(block[k:], "\n", 4)
+
+	return len(rest) >= 3 && strings.Contains(rest[2], "isaac.(*ProposalProcessors).")
 }
 
 func (*c11Writer) SetOperationsSize(uint64) {}
@@ -256,6 +359,10 @@ func (wr *c11Writer) Manifest(ctx context.Context, _ base.Manifest) (base.Manife
 	}
 
 	wr.env.pause(wr.beh.GateManifest)
+
+	if wr.hold {
+		<-wr.env.gate
+	}
 
 	if wr.beh.ManifestErr {
 		return nil, errC11Writer
@@ -345,9 +452,19 @@ func (s c11Step) String() string {
 	return fmt.Sprintf("L%d:cancel", s.Lane)
 }
 
+// c11Queue is a concurrent phase whose schedule the harness owns: Process(Holder) is started and its writer pauses inside
+// Manifest, so the call keeps the processors' lock; then every call of Calls is issued on its own goroutine, in this order,
+// the next one only after the previous one is parked on the processors' lock (or has returned); then the holder is
+// released and the queued calls run in the order they were queued (sync.Mutex wakes waiters first-in first-out).
+type c11Queue struct {
+	Holder int
+	Calls  []c11Step
+}
+
 type c11Program struct {
 	Lanes      int
 	Steps      []c11Step
+	Queue      *c11Queue // runs after Steps
 	Behaviours []c11WriterBehaviour
 }
 
@@ -356,8 +473,15 @@ func c11PropIdx(h, rd, v int) int { return ((h-1)*c11Rounds+rd)*c11Variants + v 
 func c11GenProgram(t *rapid.T) c11Program {
 	var p c11Program
 
+	queued := rapid.IntRange(0, 9).Draw(t, "queued") < 4
+
 	p.Lanes = rapid.SampledFrom([]int{1, 1, 2, 2, 3, 4}).Draw(t, "lanes")
 	n := rapid.IntRange(2, 14).Draw(t, "nsteps")
+
+	if queued { // a short history first, then the queued phase
+		p.Lanes = 1 + p.Lanes/3
+		n /= 3
+	}
 
 	cursor := rapid.IntRange(1, 3).Draw(t, "startHeight") // generator-side bias only: the height "consensus" is working on
 	current := -1                                         // proposal most recently handed to Process
@@ -489,11 +613,61 @@ func c11GenProgram(t *rapid.T) c11Program {
 		}
 	}
 
+	if queued {
+		// the queued phase: what several handlers do for one height (the ACCEPT voteproof of the running proposal arrives,
+		// the next round's proposal of the same height is handed over, its voteproof arrives, ...) while the processing
+		// of the holder's proposal is still going on
+		q := &c11Queue{Holder: c11PropIdx(clampH(cursor), rapid.IntRange(0, c11Rounds-1).Draw(t, "qR"), rapid.IntRange(0, c11Variants-1).Draw(t, "qV"))}
+		current = q.Holder
+
+		qn := rapid.IntRange(2, 5).Draw(t, "qn")
+
+		plain := func(st c11Step) c11Step {
+			st.Lane, st.Yield = 0, 0
+
+			if st.Op == "process" {
+				st.Wait = true
+			}
+
+			return st
+		}
+
+		for i := 0; len(q.Calls) < qn; i++ {
+			lb := fmt.Sprintf("q%d", i)
+
+			switch k := rapid.IntRange(0, 19).Draw(t, lb+"kind"); {
+			case k < 9:
+				q.Calls = append(q.Calls, plain(save(lb+"s", current, 0, 3)))
+			case k < 17:
+				prop := c11PropIdx(clampH(cursor), rapid.IntRange(0, c11Rounds-1).Draw(t, lb+"R"), rapid.IntRange(0, c11Variants-1).Draw(t, lb+"V"))
+				q.Calls = append(q.Calls, plain(process(lb+"p", prop, 0)))
+
+				if rapid.IntRange(0, 4).Draw(t, lb+"then") != 0 {
+					q.Calls = append(q.Calls, plain(save(lb+"s", prop, 0, 3)))
+				}
+			default:
+				q.Calls = append(q.Calls, plain(noise(lb+"n", 0)))
+			}
+		}
+
+		p.Queue = q
+	}
+
 	nb := 0
 
 	for _, s := range p.Steps {
 		if s.Op == "process" {
 			nb++
+		}
+	}
+
+	if p.Queue != nil {
+		nb++
+
+		for _, s := range p.Queue.Calls {
+			if s.Op == "process" {
+				nb++
+			}
 		}
 	}
 
@@ -531,6 +705,16 @@ func (p c11Program) fingerprint() string {
 		b.WriteString(" " + s.String())
 	}
 
+	if p.Queue != nil {
+		fmt.Fprintf(&b, " | hold(p%d) queue[", p.Queue.Holder)
+
+		for _, s := range p.Queue.Calls {
+			b.WriteString(" " + s.String())
+		}
+
+		b.WriteString(" ] release")
+	}
+
 	for i, w := range p.Behaviours {
 		if w != (c11WriterBehaviour{}) {
 			fmt.Fprintf(&b, " w%d%+v", i, w)
@@ -541,7 +725,7 @@ func (p c11Program) fingerprint() string {
 }
 
 func c11Run(t ev.TB, r *ev.Rec, w *c11World, p c11Program) (classes []string, nontrivial bool) {
-	env := &c11Env{w: w, behaviours: p.Behaviours}
+	env := &c11Env{w: w, behaviours: p.Behaviours, gate: make(chan struct{})}
 
 	// the context of the Process call that is currently creating a writer (single slot is enough: Process holds the
 	// processors' lock while the writer is created and used)
@@ -590,7 +774,12 @@ func c11Run(t ev.TB, r *ev.Rec, w *c11World, p c11Program) (classes []string, no
 	var latemu sync.Mutex
 	var late []func()
 
-	runStep := func(s c11Step) {
+	// returned (may be nil) is called as soon as the ProposalProcessors method itself has returned
+	runStep := func(s c11Step, returned func()) {
+		if returned == nil {
+			returned = func() {}
+		}
+
 		for i := 0; i < s.Yield; i++ {
 			runtime.Gosched()
 		}
@@ -633,6 +822,8 @@ func c11Run(t ev.TB, r *ev.Rec, w *c11World, p c11Program) (classes []string, no
 			previous := base.NewDummyManifest(point.Height()-1, c11Hash(fmt.Sprintf("prev-%d", point.Height()-1)))
 
 			f, err := pps.Process(ctx, point, facthash, previous, ivp)
+			returned()
+
 			if err == nil && f != nil && s.Wait {
 				_, _ = f(context.Background())
 			}
@@ -654,10 +845,25 @@ func c11Run(t ev.TB, r *ev.Rec, w *c11World, p c11Program) (classes []string, no
 
 			avp := w.avp(q.pr.Point(), q.pr.Fact().Hash(), nb)
 
+			call := &c11CallRecord{Step: s.String(), Height: avp.Point().Height().Int64()}
+
+			env.mu.Lock()
+			call.Begin = env.seq.Add(1)
+			env.calls = append(env.calls, call)
+			env.mu.Unlock()
+
 			// exactly what voteproofHandler.saveBlock does
-			_, _ = pps.Save(context.Background(), avp.BallotMajority().Proposal(), avp)
+			_, err := pps.Save(context.Background(), avp.BallotMajority().Proposal(), avp)
+
+			env.mu.Lock()
+			call.End = env.seq.Add(1)
+			call.OK = err == nil
+			env.mu.Unlock()
+
+			returned()
 		default:
 			_ = pps.Cancel()
+			returned()
 		}
 	}
 
@@ -675,12 +881,109 @@ func c11Run(t ev.TB, r *ev.Rec, w *c11World, p c11Program) (classes []string, no
 			}()
 
 			for _, s := range steps {
-				runStep(s)
+				runStep(s, nil)
 			}
 		}(lanes[i])
 	}
 
 	wg.Wait()
+
+	// ---- the queued phase
+	held, confirmed := false, 0
+
+	if q := p.Queue; q != nil {
+		hp := w.proposals[q.Holder]
+
+		// an earlier Process whose result nobody waited for may still be running (it keeps the processors' lock until it is
+		// done, and creates its writer on the way): wait for it, so that the hold goes to the holder's writer and to no other
+		_ = pps.Processor()
+
+		env.armHold(hp.pr.Fact().Hash())
+
+		hctx, hcancel := context.WithCancel(context.Background())
+		cancelSlot.Store(func() { hcancel() })
+
+		hpoint := hp.pr.Point()
+
+		hf, herr := pps.Process(hctx, hpoint, hp.pr.Fact().Hash(),
+			base.NewDummyManifest(hpoint.Height()-1, c11Hash(fmt.Sprintf("prev-%d", hpoint.Height()-1))), w.ivp(hp))
+
+		// from here on the processors' lock is held by the holder until the gate opens (Process gives the lock back
+		// only when the processing, which passes through the writer's Manifest, is over)
+		held = herr == nil && hf != nil
+
+		if !held {
+			env.armHold(nil) // already the running proposal, or failed: nobody holds the lock; the calls just run
+		}
+
+		buf := c11StackBuf // rapid runs the cases of one process one after the other
+		defer func() { c11StackBuf = buf }()
+
+		var qwg sync.WaitGroup
+
+		for _, s := range q.Calls {
+			goid := make(chan string, 1)
+			returned := make(chan struct{})
+
+			qwg.Add(1)
+
+			go func(s c11Step) {
+				defer qwg.Done()
+				defer func() {
+					if x := recover(); x != nil {
+						panicked.Store(fmt.Sprintf("%v", x))
+
+						select {
+						case <-returned:
+						default:
+							close(returned)
+						}
+					}
+				}()
+
+				goid <- c11GoID()
+
+				runStep(s, func() { close(returned) })
+			}(s)
+
+			id := <-goid
+
+			// the next call is issued only when this one is parked on the processors' lock or has returned. The grace
+			// bounds the wait if the goroutine dump cannot be read; it affects only the schedule, never the verdict.
+			deadline := time.Now().Add(2 * time.Second)
+
+		waiting:
+			for {
+				select {
+				case <-returned:
+					confirmed++
+
+					break waiting
+				default:
+				}
+
+				switch {
+				case c11ParkedOnProcessorsLock(id, &buf):
+					confirmed++
+
+					break waiting
+				case time.Now().After(deadline):
+					break waiting
+				}
+
+				runtime.Gosched()
+			}
+		}
+
+		close(env.gate)
+
+		if held {
+			_, _ = hf(context.Background())
+		}
+
+		qwg.Wait()
+		hcancel()
+	}
 
 	// a Process whose result nobody waited for may still be running: it holds the processors' lock until it is done
 	_ = pps.Cancel()
@@ -743,6 +1046,36 @@ func c11Run(t ev.TB, r *ev.Rec, w *c11World, p c11Program) (classes []string, no
 				r.Violation(t, "saved-below-saved-height", "height %d saved after height %d: %s THEN %s; program %s", b.Height, a.Height, desc(a), desc(b), p.fingerprint())
 			case b.End < a.Begin && a.Height < b.Height:
 				r.Violation(t, "saved-below-saved-height", "height %d saved after height %d: %s THEN %s; program %s", a.Height, b.Height, desc(b), desc(a), p.fingerprint())
+			}
+		}
+	}
+
+	// what the callers of ProposalProcessors.Save were told: a nil error reports a saved block of the voteproof's height
+	env.mu.Lock()
+	calls := append([]*c11CallRecord(nil), env.calls...)
+	env.mu.Unlock()
+
+	var okcalls []*c11CallRecord
+
+	for _, c := range calls {
+		if c.OK {
+			okcalls = append(okcalls, c)
+		}
+	}
+
+	for i, a := range okcalls {
+		for _, b := range okcalls[i+1:] {
+			first, second := a, b
+			if b.End < a.Begin {
+				first, second = b, a
+			}
+
+			switch {
+			case a.Height == b.Height:
+				r.Violation(t, "two-saves-accepted-one-height", "two Save calls for height %d both returned without error: %s AND %s; program %s", a.Height, a.Step, b.Step, p.fingerprint())
+			case first.End < second.Begin && second.Height < first.Height:
+				r.Violation(t, "save-accepted-below-saved-height", "Save for height %d returned without error after Save for height %d had returned without error: %s THEN %s; program %s",
+					second.Height, first.Height, first.Step, second.Step, p.fingerprint())
 			}
 		}
 	}
@@ -837,7 +1170,45 @@ func c11Run(t ev.TB, r *ev.Rec, w *c11World, p c11Program) (classes []string, no
 		classes = append(classes, "no-writer-save-at-all")
 	}
 
-	nontrivial = mismatch || repeated || raced
+	if q := p.Queue; q != nil {
+		classes = append(classes, fmt.Sprintf("queued-phase:%d-calls", len(q.Calls)))
+
+		if held {
+			classes = append(classes, "queued-behind-running-process")
+		}
+
+		if confirmed == len(q.Calls) {
+			classes = append(classes, "queue-order-confirmed")
+		} else {
+			classes = append(classes, "queue-order-unconfirmed")
+		}
+
+		hh := w.proposals[q.Holder].height
+		qsaves, qprocs := 0, 0
+
+		for _, s := range q.Calls {
+			switch {
+			case s.Op == "save" && s.NewBlock == "match" && w.proposals[s.Proposal].height == hh:
+				qsaves++
+			case s.Op == "process" && s.Proposal >= 0 && w.proposals[s.Proposal].height == hh:
+				qprocs++
+			}
+		}
+
+		if qsaves > 1 {
+			classes = append(classes, "queued-two-matching-saves-one-height")
+		}
+
+		if qsaves > 1 && qprocs > 0 {
+			classes = append(classes, "queued-save-process-save-one-height")
+		}
+
+		if held && len(q.Calls) > 1 {
+			nontrivial = true
+		}
+	}
+
+	nontrivial = nontrivial || mismatch || repeated || raced
 
 	return classes, nontrivial
 }
